@@ -1223,7 +1223,21 @@ def run_clear(spec, acc):
             time.sleep(0.05)
             c0 = h.log.seq()
             if ck == 'TempoClock-stop':
-                clock.stop()
+                if rnd % 2:
+                    # stop() called by a task that another clock is awakening
+                    # (that thread owns the library lock): the other clocks go on
+                    from sc3.base.functions import Function
+                    stopper = rng.choice([clk.SystemClock, clk.AppClock])
+                    acc.count('stop_called_from_a_task_of_another_clock')
+
+                    def make_call_stop(victim):
+                        def call_stop():        # (no parameters: the library
+                            victim.stop()       # passes arguments by count)
+                        return Function(call_stop)
+                    stopper.sched(0, make_call_stop(clock))
+                    time.sleep(0.05)
+                else:
+                    clock.stop()
                 t0 = time.time()
                 while clock.running() and time.time() - t0 < 3:
                     time.sleep(0.001)
@@ -1236,6 +1250,10 @@ def run_clear(spec, acc):
             if ck != 'TempoClock-stop':
                 after = [h.do_sched(clock, 'rel', 0.01, [{'ret': None}], 'tk',
                                     ('thread', 'a')) for _ in range(3)]
+            else:
+                # the process-wide clocks are not affected by stopping a TempoClock
+                after = [h.do_sched(c2, 'rel', 0.01, [{'ret': None}], 'tk', ('thread', 'a'))
+                         for c2 in (clk.SystemClock, clk.AppClock)]
             time.sleep(0.75)
             cancelled = {}
             for r in before:
